@@ -79,11 +79,14 @@ CLAIMS.update({
             "Props/C19.lean; sockets/JSON/requests exercised not modelled; the Go reference cannot be built here"),
 })
 CLAIMS.update({
-    "C05": ("Lean: the documented time/memory model as a specification (`specRun`/`specTicks`, written from the documentation, independent of the tick generator) with theorems "
-            "about it: the segment formulas, the divisor of each scaling law at each cut-off and its monotonicity in the CPU count, CPU time antitone in CPUs, I/O flat in CPUs, "
-            "the memory profile (linear growth to the read size / constant declared peak), every operator occupies at least one tick. PARTIAL in one respect: that the tick generator's "
-            "trace *equals* `specRun` is established by the tie, not by a theorem. Tie: thousands of single-container runs of the real code against the specification, exact on the "
-            "binary-exact lattice, either-side only at flagged float boundaries on decimal tick rates; the (law, cpus 1..128) grid of the real scaling functions.", "Props/C05.lean"),
+    "C05": ("Lean: the documented time/memory model as a specification (`ctrDemands`/`specRun`, written from the documentation, independent of the tick generator) and theorems: "
+            "(1) the container the pool creates for an assignment has exactly the documented list of per-tick memory demands still to come (tick counts from the documented formulas "
+            "at the assigned CPU count, every operator at least one tick); (2) `Container.tick` consumes exactly one demand per tick: above the allocation the container stops holding "
+            "that demand (OOM at the first excess, not before), otherwise it holds the demand, the operator index advances exactly at an operator's last demand and the container is "
+            "complete exactly when none is left; (3) by induction over ticks, after n fitting ticks exactly the first n demands are consumed, so completion happens at the summed tick "
+            "count, neither earlier nor later; plus the segment formulas, law divisors and their monotonicity, CPU time antitone in CPUs, flat beyond each law's bound, memory profile. "
+            "Tie: thousands of single-container runs of the real code against the specification, exact on the binary-exact lattice, either-side only at flagged float boundaries on "
+            "decimal tick rates; the (law, cpus 1..128) grid of the real scaling functions.", "Props/C05.lean, Proofs/Profile.lean; sqrt/log laws via integer sqrt and an enclosure table"),
     "C08": ("PARTIAL. Lean theorems, for every world and every queue state: one round of priority / priority-pool asks no pool for more CPU or RAM than it has free, so the executor's "
             "verify_valid_assignment accepts it (budget invariant through the three queue runs); the round's assignments are a chain of accepted Assignment constructions, hence no operator "
             "occurs twice, every operator was PENDING/FAILED and positive resources are requested; priority's suspensions name only active suspendable containers, so verify_valid_suspend "
